@@ -32,8 +32,8 @@ CONSTANTS NStores,        \* number of stores
 (* names: 1 = "a", 2 = the replica label, 3 = "z" *)
 LsetU == << << <<1, 1>>, <<2, 1>>, <<3, 2>> >>,      \* {a=1, r=1, z=2}
             << <<1, 1>>, <<2, 2>>, <<3, 1>> >>,      \* {a=1, r=2, z=1}   after it with r, before it without
-            << <<1, 1>> >>,                          \* {a=1}
             << <<1, 1>>, <<2, 1>>, <<3, 1>> >>,      \* {a=1, r=1, z=1}   replica of the 2nd one
+            << <<1, 1>> >>,                          \* {a=1}
             << <<1, 2>>, <<2, 1>> >> >>              \* {a=2, r=1}
 Lsets == { LsetU[i] : i \in 1..NLsets }
 
